@@ -1,5 +1,5 @@
 #!/bin/bash
-# usage: tools/confirm_seeded.sh /tmp/mut/<name> <seeded-id>
+# usage: [DEMO_ENV="GOARCH=386"] tools/confirm_seeded.sh /tmp/mut/<name> <seeded-id>
 # Confirms a sub-agent's seeded change independently: (1) patch applies to a clean checkout of /repo HEAD,
 # (2) the existing suite passes with it, (3) the demo fails with it and passes without it.
 # On success stores patch.diff, the demo and meta.json under /verif/seeded/<seeded-id>/ .
@@ -23,10 +23,10 @@ go test -vet=off -count=1 -timeout 25m ./... > $w/suite.log 2>&1
 suite_rc=$?
 git checkout -- go.mod go.sum 2>/dev/null
 cp $demo_file $demo_dest
-go test -vet=off -count=1 -timeout 10m -run "^($run_re)\$" $pkg > $w/demo_with.log 2>&1
+env ${DEMO_ENV:-_X=1} go test -vet=off -count=1 -timeout ${DEMO_TIMEOUT:-10m} -run "^($run_re)\$" $pkg > $w/demo_with.log 2>&1
 with_rc=$?
 git apply -R --whitespace=nowarn $src/patch.diff
-go test -vet=off -count=1 -timeout 10m -run "^($run_re)\$" $pkg > $w/demo_without.log 2>&1
+env ${DEMO_ENV:-_X=1} go test -vet=off -count=1 -timeout ${DEMO_TIMEOUT:-10m} -run "^($run_re)\$" $pkg > $w/demo_without.log 2>&1
 without_rc=$?
 echo "RESULT $id: suite_rc=$suite_rc demo_with_change_rc=$with_rc demo_without_change_rc=$without_rc"
 grep -v "^ok\|no test files" $w/suite.log | head -5
@@ -46,6 +46,7 @@ out = {
   "demo_dest": sys.argv[4],
   "demo_run": "go test -vet=off -count=1 -run '^(%s)$' ./%s/" % (sys.argv[5], sys.argv[4].rsplit('/',1)[0]),
   "author": "independent sub-agent given only the property text and a scratch worktree",
+  "demo_env": __import__("os").environ.get("DEMO_ENV", ""),
   "confirmed_by_me": "tools/confirm_seeded.sh: patch applied to a clean worktree of /repo HEAD; `go test -vet=off -count=1 ./...` all packages ok with the change; demo FAILS with the change and PASSES without it",
 }
 json.dump(out, open(sys.argv[2], "w"), indent=1)
